@@ -388,6 +388,8 @@ int tls13_do_recv(TLS_CONNECT *conn)
 
 
 	if (record_type != TLS_record_application_data) {
+		// not application data: a later tls13_recv() must not hand it out
+		conn->datalen = 0;
 		error_print();
 		return -1;
 	}
